@@ -1,3 +1,234 @@
 import Driver.Common
-/- stub: model driver for C05 not built yet -/
-def main : IO Unit := Driver.lineLoop (fun _ => "unimplemented")
+import ThriftVerif.Lib.Resolve
+
+/-
+  Model driver of C05.  Ops (one per line):
+    R <root> <nfiles> File*     run `Sem.resolve` on the program, print the canonical dump
+    P <pathHex>                 IDLPrefix
+    Y <idHex>                   SplitType
+    Z <idHex>                   SplitValue
+  Program encoding: see harness/cmd/c05/vlenc.go (prefix notation, explicit counts, hex strings).
+-/
+namespace Driver.C05
+open Sem
+
+abbrev P (α : Type) := List String → Option (α × List String)
+
+def pNat : P Nat
+  | t :: r => t.toNat?.map (·, r)
+  | [] => none
+
+def pInt : P Int
+  | t :: r => t.toInt?.map (·, r)
+  | [] => none
+
+def pHex : P Bytes
+  | t :: r => (VL.hexDecode t).map (·, r)
+  | [] => none
+
+partial def pMany {α} (p : P α) : Nat → P (List α)
+  | 0, ts => some ([], ts)
+  | n + 1, ts => do
+    let (x, ts) ← p ts
+    let (xs, ts) ← pMany p n ts
+    pure (x :: xs, ts)
+
+def pCounted {α} (p : P α) : P (List α) := fun ts => do
+  let (n, ts) ← pNat ts
+  pMany p n ts
+
+partial def pType : P TypeExpr
+  | "n" :: ts => do let (n, ts) ← pHex ts; pure (.name n, ts)
+  | "l" :: ts => do let (v, ts) ← pType ts; pure (.list v, ts)
+  | "s" :: ts => do let (v, ts) ← pType ts; pure (.set v, ts)
+  | "m" :: ts => do let (k, ts) ← pType ts; let (v, ts) ← pType ts; pure (.map k v, ts)
+  | _ => none
+
+partial def pCV : P ConstVal
+  | "i" :: ts => do let (v, ts) ← pInt ts; pure (.int v, ts)
+  | "d" :: ts => do let (v, ts) ← pHex ts; pure (.dbl v, ts)
+  | "t" :: ts => do let (v, ts) ← pHex ts; pure (.str v, ts)
+  | "x" :: ts => do let (v, ts) ← pHex ts; pure (.ident v, ts)
+  | "L" :: ts => do let (xs, ts) ← pCounted pCV ts; pure (.list xs, ts)
+  | "M" :: ts => do
+    let (kvs, ts) ← pCounted (fun ts => do
+      let (k, ts) ← pCV ts
+      let (v, ts) ← pCV ts
+      pure ((k, v), ts)) ts
+    pure (.map kvs, ts)
+  | _ => none
+
+def pField : P Field := fun ts => do
+  let (id, ts) ← pInt ts
+  let (name, ts) ← pHex ts
+  let (ty, ts) ← pType ts
+  match ts with
+  | "0" :: ts => pure (⟨id, name, ty, none⟩, ts)
+  | "1" :: ts => do let (d, ts) ← pCV ts; pure (⟨id, name, ty, some d⟩, ts)
+  | _ => none
+
+def pTypedef : P Typedef := fun ts => do
+  let (a, ts) ← pHex ts
+  let (ty, ts) ← pType ts
+  pure (⟨a, ty⟩, ts)
+
+def pConstant : P Constant := fun ts => do
+  let (a, ts) ← pHex ts
+  let (ty, ts) ← pType ts
+  let (v, ts) ← pCV ts
+  pure (⟨a, ty, v⟩, ts)
+
+def pEnum : P Enum := fun ts => do
+  let (a, ts) ← pHex ts
+  let (vs, ts) ← pCounted (fun ts => do
+    let (n, ts) ← pHex ts
+    let (v, ts) ← pInt ts
+    pure ((⟨n, v⟩ : EnumValue), ts)) ts
+  pure (⟨a, vs⟩, ts)
+
+def pStructLike (k : SLKind) : P StructLike := fun ts => do
+  let (a, ts) ← pHex ts
+  let (fs, ts) ← pCounted pField ts
+  pure (⟨k, a, fs⟩, ts)
+
+def pFunction : P Function := fun ts => do
+  let (a, ts) ← pHex ts
+  let (ow, ts) ← pNat ts
+  let (ret, ts) ← (match ts with
+    | "v" :: ts => some (none, ts)
+    | "r" :: ts => (pType ts).map (fun (t, ts) => (some t, ts))
+    | _ => none)
+  let (args, ts) ← pCounted pField ts
+  let (thr, ts) ← pCounted pField ts
+  pure (⟨a, ow != 0, ret, args, thr⟩, ts)
+
+def pService : P Service := fun ts => do
+  let (a, ts) ← pHex ts
+  let (e, ts) ← pHex ts
+  let (fs, ts) ← pCounted pFunction ts
+  pure (⟨a, e, fs⟩, ts)
+
+def pInclude : P Include := fun ts => do
+  let (p, ts) ← pHex ts
+  let (t, ts) ← pNat ts
+  pure (⟨p, t⟩, ts)
+
+def pFile : P File
+  | "F" :: ts => do
+    let (fname, ts) ← pHex ts
+    let (incs, ts) ← pCounted pInclude ts
+    let (tds, ts) ← pCounted pTypedef ts
+    let (cs, ts) ← pCounted pConstant ts
+    let (es, ts) ← pCounted pEnum ts
+    let (ss, ts) ← pCounted (pStructLike .struct) ts
+    let (us, ts) ← pCounted (pStructLike .union) ts
+    let (xs, ts) ← pCounted (pStructLike .exception) ts
+    let (svs, ts) ← pCounted pService ts
+    pure (⟨fname, incs, tds, cs, es, ss, us, xs, svs⟩, ts)
+  | _ => none
+
+/-! canonical dump -/
+
+def insertSorted (x : String) : List String → List String
+  | [] => [x]
+  | y :: r => if x ≤ y then x :: y :: r else y :: insertSorted x r
+
+def sortStrs (l : List String) : List String := l.foldr insertSorted []
+
+def hx := VL.hexEncode
+
+def refStr : Option Ref → String
+  | none => "-"
+  | some r => s!"{r.index}~{hx r.name}"
+
+def errStr : Err → String
+  | .multidef => "multidef" | .undefType => "undeftype" | .badCat => "badcat"
+  | .invalidTypeName => "invalidname" | .undefValue => "undefvalue" | .ambiguous => "ambiguous"
+  | .baseSvc => "basesvc" | .tdCycle => "tdcycle" | .tdNotFound => "tdnotfound"
+  | .notParsed => "notparsed" | .goPanic => "panic" | .derefErr => "dereferr"
+  | .includeCycle => "includecycle" | .loopDiverged => "loopdiverged" | .crash => "crash"
+
+structure DCtx where
+  views : Nat → Option FileView
+  fuel : Nat
+  file : Nat
+
+def nodeStr (d : DCtx) (name : Bytes) (n : RNode) : String :=
+  let dr := match deref d.views d.fuel d.file name n.cat n.isTypedef n.ref with
+    | .ok (j, nm, c) => s!"{j}~{hx nm}~{c.toNat}"
+    | .error .crash => "crash"
+    | .error _ => "E"
+  s!"{n.cat.toNat}:{VL.boolStr n.isTypedef}:{refStr n.ref}:{dr}"
+
+def nodesStr (d : DCtx) (te : TypeExpr) (ns : List RNode) : String :=
+  let names := te.nodes.map TypeExpr.rootName
+  if names.length != ns.length then "LEN" else
+  ",".intercalate ((names.zip ns).map fun (nm, n) => nodeStr d nm n)
+
+def bindStr : Option Extra → String
+  | none => "_"
+  | some e => s!"{VL.boolStr e.isEnum}:{e.index}:{hx e.name}:{hx e.sel}"
+
+def bindsStr (bs : List (Option Extra)) : String :=
+  if bs.isEmpty then "-" else ",".intercalate (bs.map bindStr)
+
+def zipIdx {α β} (xs : List α) (ys : List β) : List (Nat × α × β) :=
+  (List.range xs.length).zip (xs.zip ys)
+
+def fileRecords (d : DCtx) (f : File) (rf : RFile) : List String :=
+  let n := rf.n2c.map fun (k, c) => s!"N.{hx k}.{c.toNat}"
+  let t := (f.typedefs.zip rf.typedefs).map fun (td, r) => s!"T.{hx r.tdAlias}.{nodesStr d td.type r.nodes}"
+  let c := (f.constants.zip rf.constants).map fun (cd, r) =>
+    s!"C.{hx r.name}.{nodesStr d cd.type r.nodes}.{bindsStr r.binds}"
+  let s := (f.structLikes.zip rf.structLikes).flatMap fun (sd, r) =>
+    (zipIdx sd.fields r.fields).map fun (k, fd, rfd) =>
+      s!"S.{hx r.name}.{k}.{nodesStr d fd.type rfd.nodes}.{bindsStr rfd.binds}"
+  let v := (f.services.zip rf.services).flatMap fun (sd, r) =>
+    s!"V.{hx r.name}.{refStr r.ref}" ::
+    (zipIdx sd.functions r.functions).flatMap fun (k, fd, rfn) =>
+      (match fd.ret with
+       | some te => [s!"R.{hx r.name}.{k}.{nodesStr d te rfn.ret}"]
+       | none => []) ++
+      ((zipIdx fd.args rfn.args).map fun (a, ad, ns) => s!"A.{hx r.name}.{k}.{a}.{nodesStr d ad.type ns}") ++
+      ((zipIdx fd.throws rfn.throws).map fun (a, ad, ns) => s!"X.{hx r.name}.{k}.{a}.{nodesStr d ad.type ns}")
+  sortStrs (n ++ t ++ c ++ s ++ v)
+
+def usedStr (u : List Bool) : String := String.ofList (u.map fun b => if b then '1' else '0')
+
+def dump (p : Program) (tbl : Table) : String :=
+  let views := tableViews p tbl
+  let parts := (zipIdx p tbl).filterMap fun (j, f, e) =>
+    match e with
+    | none => none
+    | some rf =>
+      some (s!"F{j} u{usedStr rf.used} " ++ " ".intercalate (fileRecords ⟨views, p.chainFuel, j⟩ f rf))
+  "ok " ++ " | ".intercalate parts
+
+def runProgram (ts : List String) : String :=
+  match (do
+    let (root, ts) ← pNat ts
+    let (files, ts) ← pCounted pFile ts
+    if ts.isEmpty then some (root, files) else none) with
+  | none => "bad-op"
+  | some (root, p) =>
+    match resolve p root with
+    | .error e => "err:" ++ errStr e
+    | .ok tbl => dump p tbl
+
+def handleLine (line : String) : String :=
+  match VL.toks line with
+  | "R" :: ts => runProgram ts
+  | ["P", h] => match VL.hexDecode h with
+    | some b => hx (idlPrefix b)
+    | none => "bad-op"
+  | ["Y", h] => match VL.hexDecode h with
+    | some b => ",".intercalate ((splitType b).map hx) ++ ";"
+    | none => "bad-op"
+  | ["Z", h] => match VL.hexDecode h with
+    | some b => "|".intercalate ((splitValue b).map fun ss => ",".intercalate (ss.map hx)) ++ ";"
+    | none => "bad-op"
+  | _ => "bad-op"
+
+end Driver.C05
+
+def main : IO Unit := Driver.lineLoop Driver.C05.handleLine
